@@ -86,6 +86,59 @@ Fixpoint f1_node (n : node) : bool :=
   end.
 Definition in_F1 (p : list node) : bool := forallb f1_node p.
 
+(* ---- fragment F2 = F1 + undelimited parameters:  \def\zq..#1..#n{body} with n <= 9, calls \zq..{arg1}..{argn}, #k in bodies.
+   Three kinds of node lists:
+     "argument"  (no #k at all; definitions only without parameters; any depth)                       [fa_node]
+     "body of a macro with n parameters" (#k with 1 <= k <= n; definitions inside a body have no parameters of their own -
+        nested definitions with parameters need ## and are not in F2 -; nesting depth bounded, because the reference
+        evaluator substitutes with fuel 50: MacroLang.subst 50)                                        [fb_node n]
+     "program text" (definitions with up to 9 parameters whose bodies are bodies as above - or arguments, when n = 0 -,
+        calls whose arguments are arguments)                                                           [f2_node]       ---- *)
+Definition is_none {A} (o : option A) : bool := match o with None => true | Some _ => false end.
+
+Fixpoint fa_node (x : node) : bool :=
+  match x with
+  | NWord _ => true
+  | NGroup b => forallb fa_node b
+  | NDef _ _ np d b => Nat.eqb np 0 && is_none d && forallb fa_node b
+  | NCall _ o a => is_none o && forallb (forallb fa_node) a
+  | NCond t th el => f1_test t && forallb fa_node th && match el with Some e => forallb fa_node e | None => true end
+  | _ => false
+  end.
+
+Fixpoint fb_node (n : nat) (x : node) (d : nat) {struct x} : bool :=
+  match x with
+  | NWord _ => true
+  | NParam k => Nat.leb 1 k && Nat.leb k n
+  | NGroup b => match d with O => false | S d' => forallb (fun y => fb_node n y d') b end
+  | NDef _ _ np dflt b =>
+      Nat.eqb np 0 && is_none dflt && match d with O => false | S d' => forallb (fun y => fb_node n y d') b end
+  | NCall _ o a =>
+      is_none o && forallb (fun arg => match d with O => false | S d' => forallb (fun y => fb_node n y d') arg end) a
+  | NCond t th el =>
+      f1_test t &&
+      match d with
+      | O => false
+      | S d' => forallb (fun y => fb_node n y d') th &&
+                match el with Some e => forallb (fun y => fb_node n y d') e | None => true end
+      end
+  | _ => false
+  end.
+Definition BODY_DEPTH : nat := 49.      (* MacroLang.subst is called with fuel 50 = S BODY_DEPTH *)
+
+Fixpoint f2_node (x : node) : bool :=
+  match x with
+  | NWord _ => true
+  | NGroup b => forallb f2_node b
+  | NDef _ _ np d b =>
+      Nat.leb np 9 && is_none d &&
+      (forallb (fun y => fb_node np y BODY_DEPTH) b || (Nat.eqb np 0 && forallb fa_node b))
+  | NCall _ o a => is_none o && forallb (forallb fa_node) a
+  | NCond t th el => f1_test t && forallb f2_node th && match el with Some e => forallb f2_node e | None => true end
+  | _ => false
+  end.
+Definition in_F2 (p : list node) : bool := forallb f2_node p.
+
 (* ---- \gdef: TeX replaces the meaning at every level, plasTeX only writes the global frame (DESIGN C04, observation).
         They agree when no open group holds a local definition of that name at the moment of the \gdef.  [gdef_safe]
         checks exactly that along the evaluation of the program (same recursion, same fuel and budget as [eval]). ---- *)
@@ -139,13 +192,13 @@ Definition text_of (out : list tok) : list tok := filter (fun t => negb (is_elem
 (* the token-level meaning a macro of F1 has *)
 Definition mean_of (m : MacroLang.meaning) : Engine.meaning := MDef (param_text (m_n m)) (print (m_body m)).
 
-(* ---- wire: (nodes...) -> ((tok ...) in_F1 gdef_safe) ---- *)
+(* ---- wire: (nodes...) -> ((tok ...) in_F1 gdef_safe in_F2) ---- *)
 Local Open Scope Z_scope.
 Definition print_case (v : val) : val :=
   match v with
   | VL l =>
     match mapM (node_of 100) l with
-    | Some p => VL [toks_val (print p); ofB (in_F1 p); ofB (gdef_safe (Nat.mul 50 100) p)]
+    | Some p => VL [toks_val (print p); ofB (in_F1 p); ofB (gdef_safe (Nat.mul 50 100) p); ofB (in_F2 p)]
     | None => v_bad_input
     end
   | _ => v_bad_input
